@@ -173,9 +173,16 @@ def build(rng, tier):
             inp = {0: e1, 2: [], 3: []}
             union = {0: e1 + e2, 2: [], 3: []}
             inst = f"{pid}_{j}"
-            ops = [f"eng new {inst} {pid}"] + engcheck.load_ops(inst, inp) + [f"eng run {inst}", f"eng dump {inst}", f"eng run {inst}", f"eng dump {inst}",
-                   f"eng push {inst} r0" + "".join(" " + eng.sx_tuple(t) for t in e2), f"eng run {inst}", f"eng dump {inst}"]
-            cases.append(engcheck.Case(pid, inst, ops, {"inp": inp, "marks": ["same", union], "kind": f"byods-{ds}-history", "byods": 1}))
+            if j % 2 == 0:
+                ops = [f"eng new {inst} {pid}"] + engcheck.load_ops(inst, inp) + [f"eng run {inst}", f"eng dump {inst}", f"eng run {inst}", f"eng dump {inst}",
+                       f"eng push {inst} r0" + "".join(" " + eng.sx_tuple(t) for t in e2), f"eng run {inst}", f"eng dump {inst}"]
+                marks = ["same", union]
+            else:
+                # run; push; run - without an unmodified run in between (a relation emptied by one re-run and re-derived by the next would hide behind it)
+                ops = [f"eng new {inst} {pid}"] + engcheck.load_ops(inst, inp) + [f"eng run {inst}", f"eng dump {inst}",
+                       f"eng push {inst} r0" + "".join(" " + eng.sx_tuple(t) for t in e2), f"eng run {inst}", f"eng dump {inst}", f"eng run {inst}", f"eng dump {inst}"]
+                marks = [union, "same"]
+            cases.append(engcheck.Case(pid, inst, ops, {"inp": inp, "marks": marks, "kind": f"byods-{ds}-history", "byods": 1}))
     # witness of F2 (fixed by 8b2e261; must pass)
     w = {"rels": [{"arity": 2}, {"arity": 1}, {"arity": 2}],
          "rules": [{"heads": [(2, [("var", 0), ("var", 21)])], "body": [("cl", 1, [("v", 0)], []), ("agg", [21], "count", [], 0, [("k", ("var", 0)), "_"])]}]}
@@ -206,6 +213,8 @@ def oracle(c, p, out):
 
 
 def _oracle(c, p, out, spec_sets):
+    for o, l in zip(c.ops, out):
+        if o.startswith("eng run") and l.startswith("panic"): return f"`{o}` panicked: {l[:120]}"
     dumps = [l for l, o in zip(out, c.ops) if o.startswith("eng dump")]
     if any(not d.startswith("r0:") for d in dumps): return "run/dump failed: " + next(d for d in dumps if not d.startswith("r0:"))
     first = None if c.meta.get("idem_only") else engcheck.check_sets(p, dumps[0], spec_sets(c.meta["inp"]))
